@@ -313,6 +313,8 @@ def run(ctx, rep):
             for x in v.items:
                 if isinstance(x, Con) and isinstance(x.value, str):
                     fixed.add(x.value)
+        elif meth in ("update", "extend") and hasattr(v, "kind") and getattr(v, "kind", None) == "folded" and isinstance(v.target, (tuple, list, set, frozenset)):
+            fixed |= {x for x in v.target if isinstance(x, str)}
     want = SPEC.robust_fixed_part()
     missing = sorted(want - fixed)
     rep.ob("A2", not missing, getter.node, getter, construct="%d table-independent symbols of the alphabet" % len(fixed),
